@@ -161,6 +161,7 @@ type Call struct {
 	Members []int
 	Req     proto.Message
 	ReqVal  string
+	reqSuffix string // "#u<hex>": unknown fields carried by the request (C13 profile)
 	// per-node payloads expected at the servers (server idx -> Request.Value)
 	Expect map[int]string
 
